@@ -134,4 +134,81 @@ theorem C05_bin_write (bo : BO) (v : Nat) (p : Pt UInt64) :
   refine ⟨(C05_bin_put bo v 0).1, ?_⟩
   simp [writePoint, encPoint, C05.writePoint, (C05_bin_put bo 0 p.x).2, (C05_bin_put bo 0 p.y).2]
 
+/-! ### the slice walk: `ps []geom.Point` -/
+
+/-- `n` successive model `readPoint`s (each its own short-read test) = ONE length test against `16·n`, then the
+slice walk `decPoints` over the first `16·n` bytes. -/
+theorem readMany_point_eq (bo : BO) : ∀ (n : Nat) (bs : Bytes),
+    readMany (C05.readPoint bo) n bs =
+      if bs.length < 16 * n then .error .eof
+      else .ok (decPoints bo n (bs.take (16 * n)), bs.drop (16 * n)) := by
+  intro n
+  induction n with
+  | zero => intro bs; simp [readMany, decPoints]
+  | succ n ih =>
+    intro bs
+    have hp : C05.readPoint bo bs = readPoint bo bs := by rw [C05_bin_readPoint]; rfl
+    simp only [readMany, hp, readPoint, takeN, bind, Except.bind, pure, Except.pure]
+    by_cases h16 : bs.length < 16
+    · have h : bs.length < 16 * (n + 1) := by omega
+      simp [h16, h]
+    · simp only [h16, if_false, ih]
+      by_cases hn : bs.length < 16 * (n + 1)
+      · have h : (bs.drop 16).length < 16 * n := by simp; omega
+        simp only [hn, h, if_true]
+      · have h : ¬ (bs.drop 16).length < 16 * n := by simp; omega
+        simp only [hn, h, if_false, decPoints]
+        have e1 : (bs.take (16 * (n + 1))).take 16 = bs.take 16 := by
+          rw [List.take_take, Nat.min_eq_left (by omega)]
+        have e2 : (bs.take (16 * (n + 1))).drop 16 = (bs.drop 16).take (16 * n) := by
+          rw [List.drop_take, show 16 * (n + 1) - 16 = 16 * n by omega]
+        have e3 : (bs.drop 16).drop (16 * n) = bs.drop (16 * (n + 1)) := by
+          rw [List.drop_drop, show 16 + 16 * n = 16 * (n + 1) by omega]
+        rw [e1, e2, e3]
+
+/-- **C05_bin_readPoints.** `binary.Read(r, order, &ps)` with `ps []geom.Point` as the standard library does it — ONE
+`io.ReadFull` of `dataSize` = 16·len(ps) bytes (so a short read fails as a whole, whatever the element it falls in),
+then `decoder.value`'s slice walk, 16 bytes of that one buffer per element in order — is GenLib's `binReadPoints`
+(`len(ps)` successive model `readPoint`s, each with its own short-read test). -/
+theorem C05_bin_readPoints (bo : BO) (dst : List (Pt UInt64)) (bs : Bytes) :
+    readPoints bo dst.length bs = binReadPoints bo dst bs := by
+  simp only [readPoints, binReadPoints, readMany_point_eq, takeN, bind, Except.bind, pure, Except.pure]
+  by_cases h : bs.length < 16 * dst.length <;> simp [h]
+
+/-- `encoder.value`'s slice walk is the model's `flatMap` of `writePoint`. -/
+theorem encPoints_eq (bo : BO) (ps : List (Pt UInt64)) : encPoints bo ps = ps.flatMap (C05.writePoint bo) := by
+  induction ps with
+  | nil => simp [encPoints]
+  | cons p ps ih =>
+    have hp : encPoint bo p = C05.writePoint bo p := (C05_bin_write bo 0 p).2
+    simp [encPoints, ih, hp]
+
+/-- **C05_bin_writePoints.** `binary.Write(w, order, &ps)` with `ps []geom.Point` — `encoder.value`'s slice walk into
+ONE buffer of `dataSize` bytes, ONE `w.Write(buf)` — = the model's bytes, and GenLib's `binWritePoints` appends
+exactly them. -/
+theorem C05_bin_writePoints (bo : BO) (ps : List (Pt UInt64)) (w : Bytes) :
+    writePoints bo ps = ps.flatMap (C05.writePoint bo) ∧ binWritePoints w bo ps = .ok (w ++ writePoints bo ps) := by
+  have h : writePoints bo ps = ps.flatMap (C05.writePoint bo) := encPoints_eq bo ps
+  exact ⟨h, by rw [h]; rfl⟩
+
+/-- two points, both byte orders: the slice walk reads back what it wrote, and leaves the rest of the stream -/
+example :
+    (readPoints .ndr 2 (writePoints .ndr [⟨1, 0x4000000000000000⟩, ⟨0x3FF0000000000000, 2⟩] ++ [7])).toOption =
+        some ([⟨1, 0x4000000000000000⟩, ⟨0x3FF0000000000000, 2⟩], [7]) ∧
+      (readPoints .xdr 2 (writePoints .xdr [⟨1, 0x4000000000000000⟩, ⟨0x3FF0000000000000, 2⟩] ++ [7])).toOption =
+        some ([⟨1, 0x4000000000000000⟩, ⟨0x3FF0000000000000, 2⟩], [7]) ∧
+      writePoints .ndr [⟨1, 0x4000000000000000⟩, ⟨0x3FF0000000000000, 2⟩] =
+        [1, 0, 0, 0, 0, 0, 0, 0, 0, 0, 0, 0, 0, 0, 0, 0x40, 0, 0, 0, 0, 0, 0, 0xF0, 0x3F, 2, 0, 0, 0, 0, 0, 0, 0] ∧
+      writePoints .xdr [⟨1, 0x4000000000000000⟩, ⟨0x3FF0000000000000, 2⟩] =
+        [0, 0, 0, 0, 0, 0, 0, 1, 0x40, 0, 0, 0, 0, 0, 0, 0, 0x3F, 0xF0, 0, 0, 0, 0, 0, 0, 0, 0, 0, 0, 0, 0, 0, 2] := by
+  decide +kernel
+
+/-- one byte short of the second point: the whole `binary.Read` fails (`io.ErrUnexpectedEOF`, the model's `eof`),
+in both byte orders -/
+example :
+    readPoints .ndr 2 ((writePoints .ndr [⟨1, 0x4000000000000000⟩, ⟨0x3FF0000000000000, 2⟩]).take 31) = .error .eof ∧
+      readPoints .xdr 2 ((writePoints .xdr [⟨1, 0x4000000000000000⟩, ⟨0x3FF0000000000000, 2⟩]).take 31) =
+        .error .eof :=
+  ⟨rfl, rfl⟩
+
 end GeomV.C05.BinStd
